@@ -72,6 +72,7 @@ NewConn(d, a, x) ==
      ans |-> FALSE, claimA |-> "-", usedA |-> "-",      \* answerer's presentation
      dst |-> "hs", recD |-> "-",                        \* dialler's side: hs | open | fail | gone
      pres |-> FALSE, claimD |-> "-", usedD |-> "-",     \* dialler's presentation
+     held |-> FALSE,                                    \* M sent the first half of a handshake and withholds the rest
      ast |-> "idle", recA |-> "-",                      \* answerer's side: idle | open | fail | gone
      au |-> NoAuth]                                     \* SSH user authentication at the answerer
 
@@ -91,11 +92,16 @@ Max(S) == CHOOSE x \in S : \A y \in S : y <= x
 -----------------------------------------------------------------------------
 (* Which connection carries a Tell/Ask of honest node n to (identity x, transport of t).     *)
 (* c = 0: none, dial.  sure = FALSE: the model does not commit to a prediction for this send. *)
+\* n has a channel object for c: it dialled, or the peer's first packet arrived (handleMessage creates the channel
+\* for the SOURCE TRANSPORT ADDRESS of any packet, with AcceptKey = whitelist, before looking at the packet)
+HasChan(c, n) == \/ conns[c].d = n
+                 \/ (conns[c].d \in Honest /\ conns[c].ans)
+                 \/ (conns[c].d = "M" /\ conns[c].claimD # "-")
 Match(c, n, x) == Rec(c, n) = x \/ "nopostcheck" \in Weak      \* swarm.go:147-149
 Route(n, x, t) ==
     IF kind = "p2pke" THEN
         \* s/p2pkeswarm/swarm.go:128-154 getFullAddr: ONE channel per transport address, whoever created it
-        LET pc   == {c \in CIdx : {conns[c].d, conns[c].a} = {n, t} /\ St(c, n) # "gone"}
+        LET pc   == {c \in CIdx : {conns[c].d, conns[c].a} = {n, t} /\ St(c, n) # "gone" /\ HasChan(c, n)}
             open == {c \in pc : St(c, n) = "open"} IN
         IF \E c \in open : Match(c, n, x) THEN [c |-> Max({c \in open : Match(c, n, x)}), sure |-> Cardinality(pc) = 1]
         ELSE IF open # {} THEN [c |-> 0, sure |-> FALSE]     \* wrong identity: channel deleted, dialled again
@@ -122,7 +128,8 @@ Gone(cs, n, t) ==
             THEN (IF cs[c].d = n THEN [cs[c] EXCEPT !.dst = "gone"] ELSE [cs[c] EXCEPT !.ast = "gone"])
             ELSE cs[c]]
 
-Snd(f, x, t, ask, c, sure) == [from |-> f, x |-> x, t |-> t, ask |-> ask, c |-> c, st |-> "queued", sure |-> sure]
+Snd(f, x, t, ask, c, sure) == [from |-> f, x |-> x, t |-> t, ask |-> ask, c |-> c, st |-> "queued", sure |-> sure,
+                               lk |-> FALSE, res |-> "-"]     \* lk: a LookupPublicKey call, res: the key it returned
 
 (* Dial: the connection a Tell/Ask creates when Route finds none.                              *)
 (* p2pkeswarm getFullAddr (AcceptKey: id = dialled id), quicswarm withSession, sshswarm getConn *)
@@ -163,6 +170,21 @@ Reply(n, dl, ask) ==
             /\ sends' = Append(sends, Snd(n, dl.src, t, ask, Len(conns) + 1, r.sure))
     /\ UNCHANGED <<kind, wl, dlv, saw, mpol, adv>>
 
+(* LookupPublicKey(ctx, (x, t)) of an honest node OUTSIDE a handler.  p2pkeswarm and quicswarm dial if they have   *)
+(* nothing for the address; sshswarm only looks into its connection table (swarm.go:94-103).                    *)
+LookupKey(n, x, t) ==
+    /\ n \in Honest /\ t \in Nodes \ {n} /\ x \in Nodes
+    /\ Len(sends) < MaxSend
+    /\ LET r == Route(n, x, t) IN
+       IF r.c # 0
+       THEN /\ sends' = Append(sends, [Snd(n, x, t, FALSE, r.c, r.sure) EXCEPT !.lk = TRUE]) /\ UNCHANGED conns
+       ELSE IF kind = "ssh"
+       THEN /\ sends' = Append(sends, [Snd(n, x, t, FALSE, 0, TRUE) EXCEPT !.lk = TRUE, !.st = "err"]) /\ UNCHANGED conns
+       ELSE /\ Len(conns) < MaxConn
+            /\ Dial(n, x, t)
+            /\ sends' = Append(sends, [Snd(n, x, t, FALSE, Len(conns) + 1, r.sure) EXCEPT !.lk = TRUE])
+    /\ UNCHANGED <<kind, wl, dlv, saw, mpol, adv>>
+
 -----------------------------------------------------------------------------
 (* Handshake, one action per party and phase *)
 
@@ -198,7 +220,7 @@ DialerCheck(c) ==
 
 \* the answerer admits the dialler (p2pkeswarm handleMessage AcceptKey closure swarm.go:173-176;
 \* quicswarm serve :291-301; sshswarm newServer).  SSH user authentication of the adversary is MQuery/MSigned.
-CanAccept(c) == /\ conns[c].a \in Honest /\ conns[c].pres /\ conns[c].ast = "idle"
+CanAccept(c) == /\ conns[c].a \in Honest /\ conns[c].pres /\ conns[c].ast = "idle" /\ ~conns[c].held
                 /\ ~(kind = "ssh" /\ conns[c].d = "M")
 Accept(c) ==
     /\ CanAccept(c)
@@ -219,14 +241,26 @@ HsBusy(c) == CanAnswer(c) \/ CanDialerCheck(c) \/ CanAccept(c)
 (* Data *)
 
 \* a queued Tell/Ask of an honest node goes on the wire once its side of the connection is ready
-CanTransmit(i) == sends[i].st = "queued" /\ ~HsBusy(sends[i].c)
+\* ... or fails for good.  While M withholds the second half of a handshake the call WAITS (WaitReady) until
+\* M goes on or the caller's context ends (Timeout).  A LookupPublicKey call goes the same way (p2pkeswarm
+\* getFullAddr, quicswarm withSession) but returns the recorded key instead of sending anything.
+Waiting(i) == sends[i].st = "queued" /\ sends[i].c # 0 /\ conns[sends[i].c].held
+CanTransmit(i) == sends[i].st = "queued" /\ ~HsBusy(sends[i].c) /\ ~conns[sends[i].c].held
 Transmit(i) ==
     /\ CanTransmit(i)
     /\ LET s    == sends[i]
            \* p2pkeswarm getFullAddr compares the channel's key with the dialled identity AFTER WaitReady
-           \* (swarm.go:147-149): that is what protects a Tell which found a channel somebody else created
-           idok == kind # "p2pke" \/ Rec(s.c, s.from) = s.x \/ "nopostcheck" \in Weak IN
-       sends' = [sends EXCEPT ![i].st = IF St(s.c, s.from) = "open" /\ idok THEN "wire" ELSE "err"]
+           \* (swarm.go:147-149): that is what protects a call which found a channel somebody else created
+           idok == kind # "p2pke" \/ Rec(s.c, s.from) = s.x \/ "nopostcheck" \in Weak
+           ok   == St(s.c, s.from) = "open" /\ idok IN
+       sends' = [sends EXCEPT ![i].st = IF ~ok THEN "err" ELSE IF s.lk THEN "got" ELSE "wire",
+                              ![i].res = IF ok /\ s.lk THEN Rec(s.c, s.from) ELSE "-"]
+    /\ UNCHANGED <<kind, wl, conns, dlv, saw, mpol, adv>>
+
+\* the caller's context ends while the call still waits
+Timeout(i) ==
+    /\ i \in 1..Len(sends) /\ Waiting(i)
+    /\ sends' = [sends EXCEPT ![i].st = "err"]
     /\ UNCHANGED <<kind, wl, conns, dlv, saw, mpol, adv>>
 
 \* whitelist consulted when a message is handed up
@@ -284,13 +318,30 @@ Proofs(k) == {"own", "none"} \cup (IF kind = "p2pke" /\ Captured(k) THEN {"splic
 
 \* one complete handshake attempt as dialler presenting key k (P2PKE InitHello + InitDone; TLS client certificate)
 MPresent(c, k, proof) ==
-    /\ kind # "ssh" /\ c \in CIdx /\ conns[c].d = "M" /\ conns[c].ast \in {"idle", "fail"}
+    /\ kind # "ssh" /\ c \in CIdx /\ conns[c].d = "M" /\ conns[c].ast \in {"idle", "fail"} /\ ~conns[c].held
     /\ proof \in Proofs(k)
     /\ adv < MaxAdv /\ adv' = adv + 1
     /\ conns' = [conns EXCEPT ![c].pres = TRUE, ![c].claimD = k,
                                ![c].usedD = IF proof = "own" THEN "M" ELSE "none",
                                ![c].ast = "idle"]
     /\ UNCHANGED <<kind, wl, sends, dlv, saw, mpol>>
+
+\* P2PKE only: the two halves of a handshake attempt, so that the rest of the world can act in between.
+\* MHello: M's InitHello reaches the honest node: a channel for M's transport address now exists there and a
+\* handshake is in flight; nobody is authenticated yet.  MFinish: M sends its InitDone.
+MHello(c, k, proof) ==
+    /\ kind = "p2pke" /\ c \in CIdx /\ conns[c].d = "M" /\ conns[c].ast \in {"idle", "fail"} /\ ~conns[c].held
+    /\ proof \in Proofs(k)
+    /\ adv < MaxAdv /\ adv' = adv + 1
+    /\ conns' = [conns EXCEPT ![c].pres = TRUE, ![c].claimD = k,
+                               ![c].usedD = IF proof = "own" THEN "M" ELSE "none",
+                               ![c].ast = "idle", ![c].held = TRUE]
+    /\ UNCHANGED <<kind, wl, sends, dlv, saw, mpol>>
+
+MFinish(c) ==
+    /\ c \in CIdx /\ conns[c].held
+    /\ conns' = [conns EXCEPT ![c].held = FALSE]
+    /\ UNCHANGED <<kind, wl, sends, dlv, saw, mpol, adv>>
 
 MQuery(c, k) ==
     /\ kind = "ssh" /\ c \in CIdx /\ conns[c].d = "M" /\ conns[c].ans /\ conns[c].au.st = "auth"
@@ -331,6 +382,10 @@ External ==
     \/ \E t \in Honest : MDial(t)
     \/ \E c \in CIdx, k \in Nodes, proof \in {"own", "none", "splice"} : MPresent(c, k, proof)
     \/ \E c \in CIdx, k \in Nodes : MQuery(c, k) \/ MSigned(c, k)
+    \/ \E c \in CIdx, k \in Nodes, proof \in {"own", "none", "splice"} : MHello(c, k, proof)
+    \/ \E c \in CIdx : MFinish(c)
+    \/ \E n \in Honest, x \in Nodes, t \in Nodes : LookupKey(n, x, t)
+    \/ \E i \in 1..Len(sends) : Timeout(i)
     \/ \E c \in CIdx, ask \in Asks : MSend(c, ask)
 
 InHandler == \E dl \in dlv : dl.lk = "pending"
@@ -350,12 +405,15 @@ Spec == Init /\ [][Next]_vars
 
 \* the identity in Src and the key found by the in-handler lookup belong to a key pair whose private
 \* half the connected sender used in that connection's handshake
+\* ... and a key handed out by LookupPublicKey for the address (X, t) is X's key
+LookupTruth == \A i \in 1..Len(sends) : (sends[i].lk /\ sends[i].st = "got") => sends[i].res = sends[i].x
 Attribution ==
-    \A dl \in dlv :
+    /\ \A dl \in dlv :
         LET k == Used(dl.c, dl.from) IN
         /\ k \in Holds(dl.from)
         /\ dl.src = k
         /\ dl.lk \in {"pending", k}
+    /\ LookupTruth
 
 \* a payload addressed to identity X is handed only to a node that holds X's private key
 DialSafety ==
